@@ -225,6 +225,154 @@ DECOY_CACHES = {
 }
 
 
+class CleanRoom:
+    """A pristine process, forked when an episode starts (before the simulation under observation has done
+    anything), that answers reference questions - "what does loading this text into a fresh simulation give?",
+    "what does a whole-step TOY run of this text show at every boundary?" - each in a forked grandchild of its
+    own, so that no question sees what the episode, or an earlier question, left behind in process-wide state.
+    A fresh-instance shadow living in the same process shares every class- and module-level object with the
+    instance it is compared against; this one does not."""
+
+    def __init__(self):
+        import os
+        import pickle
+
+        self._os, self._pickle = os, pickle
+        self.req_r, self.req_w = os.pipe()
+        self.res_r, self.res_w = os.pipe()
+        self.pid = os.fork()
+        if self.pid == 0:
+            try:
+                os.close(self.req_w)
+                os.close(self.res_r)
+                self._serve()
+            finally:
+                os._exit(0)
+        os.close(self.req_r)
+        os.close(self.res_w)
+
+    # -- child side
+    def _read_msg(self, fd):
+        os = self._os
+        head = b""
+        while len(head) < 8:
+            chunk = os.read(fd, 8 - len(head))
+            if not chunk:
+                return None
+            head += chunk
+        n = int.from_bytes(head, "big")
+        data = b""
+        while len(data) < n:
+            chunk = os.read(fd, min(1 << 20, n - len(data)))
+            if not chunk:
+                return None
+            data += chunk
+        return self._pickle.loads(data)
+
+    def _write_msg(self, fd, obj):
+        data = self._pickle.dumps(obj)
+        self._os.write(fd, len(data).to_bytes(8, "big"))
+        view = memoryview(data)
+        while view:
+            n = self._os.write(fd, view[: 1 << 16])
+            view = view[n:]
+
+    def _serve(self):
+        os = self._os
+        while True:
+            req = self._read_msg(self.req_r)
+            if req is None:
+                return
+            pid = os.fork()
+            if pid == 0:
+                try:
+                    try:
+                        out = ("ok", _clean_room_answer(*req))
+                    except BaseException as e:  # noqa: BLE001
+                        out = ("err", repr(e))
+                    self._write_msg(self.res_w, out)
+                finally:
+                    os._exit(0)
+            os.waitpid(pid, 0)
+
+    # -- parent side
+    def ask(self, *req):
+        try:
+            self._write_msg(self.req_w, req)
+            out = self._read_msg(self.res_r)
+        except OSError:
+            return None
+        if not out or out[0] != "ok":
+            return None
+        return out[1]
+
+    def close(self):
+        os = self._os
+        for fd in (self.req_w, self.res_r):
+            try:
+                os.close(fd)
+            except OSError:
+                pass
+        try:
+            os.waitpid(self.pid, 0)
+        except OSError:
+            pass
+
+
+def _clean_room_answer(kind, settings, text):
+    from architecture_simulator.gui import webgui
+
+    install_clock()
+    if kind == "toy_whole_steps":
+        sim = webgui.get_toy_simulation()
+        sim.load_program(text)
+        out = [snapshot(sim, "toy", None, wall=False)]
+        n = 0
+        while not sim.is_done() and n < 200:
+            sim.step()
+            n += 1
+            out.append(snapshot(sim, "toy", None, wall=False))
+        return out
+    if kind == "fresh_load":
+        if settings["isa"] == "toy":
+            sim = webgui.get_toy_simulation()
+        else:
+            st = Settings(settings)
+            sim = webgui.get_riscv_simulation(settings.get("mode", "single_stage_pipeline"), bool(settings["hz"]),
+                                              st.cache_options("dc"), st.cache_options("ic"))
+        try:
+            sim.load_program(text)
+            outcome = ("ok",)
+        except Exception as e:  # noqa: BLE001
+            outcome = ("error", None, type(e).__name__, getattr(e, "line_number", None))
+        return outcome, snapshot(sim, settings["isa"], settings.get("mode"), wall=False)
+    raise ValueError(kind)
+
+
+def whole_step_snapshots(webgui, text, cap=200):
+    """Snapshots of a fresh TOY simulation advanced by whole step() calls only, one per instruction boundary,
+    computed in a forked child: a shadow living in the same process shares every class- or module-level
+    object with the simulation under observation, and would be polluted by the very calls it is compared
+    against (a shared directive object, a shared table)."""
+    from ..core.runner import isolated
+
+    def body():
+        sim = webgui.get_toy_simulation()
+        sim.load_program(text)
+        out = [snapshot(sim, "toy", None, wall=False)]
+        n = 0
+        while not sim.is_done() and n < cap:
+            sim.step()
+            n += 1
+            out.append(snapshot(sim, "toy", None, wall=False))
+        return out
+
+    try:
+        return isolated(body, 60)
+    except Exception:  # noqa: BLE001
+        return None
+
+
 class SutConstructionError(Exception):
     """The front end's factory raised for a legal configuration."""
 
@@ -251,8 +399,15 @@ class Subject:
         self.total_steps = 0
         self.decoy = None
         self.decoy_count = 0
+        self.s20_isolated = None
         self.dead = False  # a violation was recorded: stop evaluating
+        self.clean = CleanRoom() if (props & {"C13", "C20"}) else None
         self.new_simulation()
+
+    def close(self):
+        if self.clean is not None:
+            self.clean.close()
+            self.clean = None
 
     # ---- factory (the real entry points of the web front end)
     @property
@@ -310,6 +465,7 @@ class Subject:
         self.decoy = self.make_decoy() if self.settings.get("decoy") else None
         self.s13 = None
         self.s20 = None
+        self.s20_isolated = None
         self.loaded_ok = False
         self.faulted = False
         self.was_done = False
@@ -365,6 +521,21 @@ class Subject:
             mine = out if out[0] == "ok" else ("error", None, out[2], out[1][2] if out[1][0] == "ParserException" else None)
             if mine != outf:
                 self.violate("C13", "load-outcome-differs-from-fresh-simulation", expected=outf, got=mine, text=text[:400])
+            # the same question answered in the clean room (a fresh simulation in a pristine process)
+            iso = self.clean.ask("fresh_load", {k: v for k, v in self.settings.items()}, text) if self.clean is not None else None
+            if iso is not None and not self.dead:
+                iso_out, iso_snap = iso
+                if tuple(iso_out) != tuple(mine):
+                    self.violate("C13", "load-outcome-differs-from-fresh-simulation", expected=list(iso_out), got=list(mine), text=text[:400],
+                                 note="expected = fresh simulation in a separate, pristine process")
+                else:
+                    mine_snap = snapshot(self.sut, self.isa, self.mode, wall=False)
+                    if mine_snap != iso_snap:
+                        ks = diff_keys(mine_snap, iso_snap)
+                        self.violate("C13", "state-after-load-differs-from-fresh-simulation", fields=ks, first=first_diff(iso_snap, mine_snap, ks[0]),
+                                     text=text[:400], note="expected = fresh simulation in a separate, pristine process")
+                    else:
+                        self.res.probes["load compared with a fresh simulation in a pristine process"] += 1
             elif out[0] == "error":
                 a = snapshot(self.sut, self.isa, self.mode, wall=False)
                 b = snapshot(fresh, self.isa, self.mode, wall=False)
@@ -392,6 +563,7 @@ class Subject:
             self.loaded_ok = False
             self.s13 = None
             self.s20 = None
+            self.s20_isolated = None
             if started_before:
                 self.reloaded_started = True
             return out
@@ -404,6 +576,7 @@ class Subject:
             self.reloaded_started = True
             self.s13 = None
             self.s20 = None
+            self.s20_isolated = None
             self.res.probes["F-reload: load_program on a started simulation"] += 1
             return out
         if fresh is not None and outf[0] == "ok":
@@ -415,12 +588,15 @@ class Subject:
             except Exception as e:  # noqa: BLE001
                 self.violate("C13", "fresh-simulation-rejects-text-the-used-one-accepted", got=type(e).__name__, text=text[:400])
                 self.s13 = None
+        self.s20_isolated = None
         if self.isa == "toy":
             self.s20 = self.factory()
             try:
                 self.s20.load_program(text)
             except Exception:  # noqa: BLE001
                 self.s20 = None
+            if "C20" in self.props and self.clean is not None:
+                self.s20_isolated = self.clean.ask("toy_whole_steps", None, text)
         self.eff_steps = 0
         self.was_done = False
         self.done_snapshot = None
@@ -485,6 +661,9 @@ class Subject:
         if out != out16:
             self.violate("C16", "step-outcome-differs-from-uninspected-shadow", expected=out16, got=out, call=call)
         if out[0] == "raised":
+            if was_done and call == "step" and not self.reloaded_started:
+                # C13: on a finished simulation step() changes nothing and returns False - it does not raise
+                self.violate("C13", "step-on-a-finished-simulation-raised", expected=False, got=out[1])
             if out[1] == "StepSequenceError":
                 self.res.faults["F-seq"] += 1
                 if valid is True:
@@ -648,3 +827,12 @@ class Subject:
                 self.violate("C20", "half-steps-differ-from-whole-steps", fields=ks, first=first_diff(c, a3, ks[0]))
             else:
                 self.res.probes["instruction boundary compared with whole-step shadow"] += 1
+            iso = getattr(self, "s20_isolated", None)
+            k = a3.get("pm", [0])[0]
+            if iso is not None and not self.dead and isinstance(k, int) and 0 <= k < len(iso):
+                if a3 != iso[k]:
+                    ks = diff_keys(a3, iso[k])
+                    self.violate("C20", "half-steps-differ-from-whole-steps", fields=ks, first=first_diff(iso[k], a3, ks[0]),
+                                 note="expected = whole-step run in a separate process (no shared objects)")
+                else:
+                    self.res.probes["instruction boundary compared with the isolated whole-step run"] += 1
